@@ -67,7 +67,7 @@ fn params(rng: &mut Prng) -> (i64, i64) {
     (e, m)
 }
 
-pub fn mapping_history(rng: &mut Prng, max_ops: usize) -> History {
+pub fn mapping_history(rng: &mut Prng, max_ops: usize, light: bool) -> History {
     let (e, m) = params(rng);
     let native = rng.chance(1, 6);
     let cls = |k: i64| if native { k } else { k % e };
@@ -184,15 +184,17 @@ pub fn mapping_history(rng: &mut Prng, max_ops: usize) -> History {
             body.push(format!("display(v_m{i}.lookup({k}).or(0 - 1))"));
             expected.push_str(&format!("{}\n", model.get(cls(k)).unwrap_or(-1)));
         }
-        body.push(format!("display(v_m{i}.values().sum(0))"));
-        expected.push_str(&format!("{}\n", model.entries.iter().map(|e| e.1).sum::<i64>()));
-        body.push(format!("display(v_m{i}.to_generator().to_array().len())"));
-        expected.push_str(&format!("{}\n", model.len()));
-        let class_expr = if native { "v_k".to_string() } else { format!("v_k % {e}") };
-        body.push(format!("display(v_m{i}.keys().to_array().map((v_k: int)->{{{class_expr}}}).sort().to_str())"));
-        let mut cs: Vec<i64> = model.entries.iter().map(|e| e.0).collect();
-        cs.sort();
-        expected.push_str(&format!("[{}]\n", cs.iter().map(|c| c.to_string()).collect::<Vec<_>>().join(", ")));
+        if !light {
+            body.push(format!("display(v_m{i}.values().sum(0))"));
+            expected.push_str(&format!("{}\n", model.entries.iter().map(|e| e.1).sum::<i64>()));
+            body.push(format!("display(v_m{i}.to_generator().to_array().len())"));
+            expected.push_str(&format!("{}\n", model.len()));
+            let class_expr = if native { "v_k".to_string() } else { format!("v_k % {e}") };
+            body.push(format!("display(v_m{i}.keys().to_array().map((v_k: int)->{{{class_expr}}}).sort().to_str())"));
+            let mut cs: Vec<i64> = model.entries.iter().map(|e| e.0).collect();
+            cs.sort();
+            expected.push_str(&format!("[{}]\n", cs.iter().map(|c| c.to_string()).collect::<Vec<_>>().join(", ")));
+        }
         let probe = (i as i64 * 5) % UNIVERSE;
         body.push(format!("display(v_m{i}.contains({probe}))"));
         expected.push_str(&format!("{}\n", model.get(cls(probe)).is_some()));
@@ -202,7 +204,7 @@ pub fn mapping_history(rng: &mut Prng, max_ops: usize) -> History {
         expected.push_str(&format!("{}\n", model.get(cls(probe)).is_none()));
     }
     // equality between a few version pairs
-    for _ in 0..3.min(versions.len()) {
+    for _ in 0..(if light { 0 } else { 3.min(versions.len()) }) {
         let a = rng.below(versions.len() as u64) as usize;
         let b = rng.below(versions.len() as u64) as usize;
         let (ma, mb) = (&versions[a], &versions[b]);
@@ -223,7 +225,7 @@ pub fn mapping_history(rng: &mut Prng, max_ops: usize) -> History {
     History { text, expected, e, m, n_ops, kind: if native { "mapping-native" } else { "mapping" } }
 }
 
-pub fn set_history(rng: &mut Prng, max_ops: usize) -> History {
+pub fn set_history(rng: &mut Prng, max_ops: usize, light: bool) -> History {
     let (e, m) = params(rng);
     let native = rng.chance(1, 6);
     let cls = |k: i64| if native { k } else { k % e };
@@ -325,15 +327,17 @@ pub fn set_history(rng: &mut Prng, max_ops: usize) -> History {
             body.push(format!("display(v_s{i}.contains({k}))"));
             expected.push_str(&format!("{}\n", model.contains(&cls(k))));
         }
-        let class_expr = if native { "v_k".to_string() } else { format!("v_k % {e}") };
-        body.push(format!("display(v_s{i}.to_array().map((v_k: int)->{{{class_expr}}}).sort().to_str())"));
-        let mut cs = model.clone();
-        cs.sort();
-        expected.push_str(&format!("[{}]\n", cs.iter().map(|c| c.to_string()).collect::<Vec<_>>().join(", ")));
-        body.push(format!("display(v_s{i}.to_generator().to_array().len())"));
-        expected.push_str(&format!("{}\n", model.len()));
+        if !light {
+            let class_expr = if native { "v_k".to_string() } else { format!("v_k % {e}") };
+            body.push(format!("display(v_s{i}.to_array().map((v_k: int)->{{{class_expr}}}).sort().to_str())"));
+            let mut cs = model.clone();
+            cs.sort();
+            expected.push_str(&format!("[{}]\n", cs.iter().map(|c| c.to_string()).collect::<Vec<_>>().join(", ")));
+            body.push(format!("display(v_s{i}.to_generator().to_array().len())"));
+            expected.push_str(&format!("{}\n", model.len()));
+        }
     }
-    for _ in 0..4.min(versions.len()) {
+    for _ in 0..(if light { 0 } else { 4.min(versions.len()) }) {
         let a = rng.below(versions.len() as u64) as usize;
         let b = rng.below(versions.len() as u64) as usize;
         let (sa, sb) = (&versions[a], &versions[b]);
@@ -374,7 +378,20 @@ pub fn make(spec: &JobSpec, ex: &mut Executor, out: &mut JobResult) -> Option<Bo
             let max_ops = spec.params.get("max_ops").and_then(|v| v.as_u64()).unwrap_or(40) as usize;
             let mut cases = vec![];
             for k in 0..count {
-                let h = if rng.chance(1, 2) { mapping_history(&mut rng, max_ops) } else { set_history(&mut rng, max_ops) };
+                // one history in four is a "light" one (point queries only) run under small search limits:
+                // a bucket scan that is cut short by the host's search budget must be a violation, never a wrong answer
+                if k % 4 == 3 {
+                    let h = if rng.chance(1, 2) { mapping_history(&mut rng, max_ops.min(16), true) } else { set_history(&mut rng, max_ops.min(16), true) };
+                    for search in [0usize, 1, 3, 6] {
+                        let mut sc = Scenario::standard(&h.text, Limits::calibration());
+                        sc.seed = spec.seed.wrapping_add(k as u64);
+                        sc.limits.search = Some(search);
+                        sc.label = format!("C17 {} E={} M={} ops={} search={}", h.kind, h.e, h.m, h.n_ops, search);
+                        cases.push((sc, h.expected.clone()));
+                    }
+                    continue;
+                }
+                let h = if rng.chance(1, 2) { mapping_history(&mut rng, max_ops, false) } else { set_history(&mut rng, max_ops, false) };
                 for l in 0..layouts {
                     let mut sc = Scenario::standard(&h.text, Limits::calibration());
                     sc.seed = spec.seed.wrapping_add(k as u64);
@@ -394,7 +411,7 @@ pub fn make(spec: &JobSpec, ex: &mut Executor, out: &mut JobResult) -> Option<Bo
         "faults" => {
             // call/size faults inside hash and eq callbacks of one generated history
             let mut rng = Prng::new(spec.seed);
-            let h = if rng.chance(1, 2) { mapping_history(&mut rng, 12) } else { set_history(&mut rng, 12) };
+            let h = if rng.chance(1, 2) { mapping_history(&mut rng, 12, false) } else { set_history(&mut rng, 12, false) };
             let mut sc = Scenario::standard(&h.text, Limits::calibration());
             sc.label = format!("C17 faults {} E={} M={} ops={}", h.kind, h.e, h.m, h.n_ops);
             sc.ops = super::c06::rerun_ops();
@@ -447,6 +464,10 @@ fn judge_hist(sc: &Scenario, expected: &str, r: &RunResult, out: &mut JobResult)
     let kind = sc.label.split_whitespace().nth(1).unwrap_or("").to_string();
     match r.main_outcome() {
         Outcome::Value(v) if v == "true" => {}
+        Outcome::Violation(v) if v == "MaximumSearch" && sc.limits.search.is_some() => {
+            out.probe("search_limited_history_refused");
+            return;
+        }
         other => {
             out.violate(violation(P, P, ("model".into(), format!("{kind}: history program did not complete"), format!("{other:?}")), sc));
             return;
@@ -495,6 +516,9 @@ impl Job for HistJob {
         }
         if sc.env.layout_seed != 1 {
             out.probe("alternate_layout");
+        }
+        if sc.limits.search.is_some() && matches!(r.main_outcome(), Outcome::Value(_)) {
+            out.probe("search_limited_history_completed");
         }
     }
 }
